@@ -5,6 +5,7 @@
   for *every* world (any solver answers, any injected fault); the other two are about fault-free solves
   (through `solve_det` they are statements about the monadic model from every valid cache state).
 -/
+import Optyx.Props.Dispatch
 import Optyx.Lemmas.SolveGuard
 import Optyx.Lemmas.SolveHandles
 import Optyx.Drive.Solve   -- one build of this module also builds the driver the check runs
